@@ -15,6 +15,7 @@ class C01(InterpProp):
     quick_cases = 1000
     thorough_cases = 40000
     n_ops = 36
+    edited = 0.2
     rule = ('random well-formed charts (≤14 states, dense transitions with all priority classes, guards over '
             'event parameters, context flags, after/idle/active) × random histories of queue/setvar/exec; '
             'oracle: the set of fired transitions is recomputed from the configuration before the step, the '
